@@ -81,8 +81,8 @@ impl NumSem {
                 }
             }
             ("fact", NV::F(x)) => { let v = factorial_f64(x, &self.flags)?; Ok(either(w, v)) }
-            ("deg", v) => { self.flags.inexact(TOL); Ok(either(w, v.as_f64() * (std::f64::consts::PI / 180.0))) }
-            ("rad", v) => { self.flags.inexact(TOL); Ok(either(w, v.as_f64() * (180.0 / std::f64::consts::PI))) }
+            ("deg", v) => { self.flags.inexact(TOL); Ok(either(w, super::f64sem::near_overflow(v.as_f64() * (std::f64::consts::PI / 180.0))?)) }
+            ("rad", v) => { self.flags.inexact(TOL); Ok(either(w, super::f64sem::near_overflow(v.as_f64() * (180.0 / std::f64::consts::PI))?)) }
             _ => Err(Stop::Unspec("UnknownUnary")),
         }
     }
